@@ -251,6 +251,7 @@ func init() {
 			rep.Samples = append(rep.Samples, "history: prelude [New{P} x3, New{R1->#0,R2->#1}, New{R1->#1,R2->#2}, New{R1->#0,R2->#2}, New{R1->#2,R2->#0}] + [RemoveEntity(#0), Shrink, New{R1->#1,R2->#2}] re-executed with every permutation choice at archetype.go FreeTable map ranges")
 			return nil
 		}
+		addThreshold(chk, "nested-twins", nestedTwinSweep, "nested twin worlds: for every ordered pair of 7 callback-bearing operations two worlds get the same sequence, the second world's operation running inside the first world's callback; both must equal a third world that ran the sequence alone (entities, values, targets, query order, issued handles, callback counts, entity statistics)")
 		return chk
 	}
 }
